@@ -125,8 +125,21 @@ Move ==
           /\ legal' = IF resync THEN SafeLegal(po) ELSE Ls
     /\ l' = l + 1
 
+\* a board the parser or the builder returned for an arbitrary input (C06): it must be playable;
+\* a sample of them carries the full observation and is checked like any other position
+Parsed ==
+    /\ l <= Len(Rec) /\ Rec[l].ev = "parsed"
+    /\ LET e == Rec[l]
+           p == PosOfJson(e.obs.pos)
+           valid == ValidPosition(p)
+           L == IF valid /\ e.full THEN Legal(p) ELSE {}
+           B == Fail("C06", "accepted-unplayable:" \o InvalidReason(p), valid)
+                \cup (IF valid /\ e.full THEN Checks(p, L, e.obs) ELSE {})
+       IN /\ Report(B) /\ bad' = B /\ pos' = p /\ legal' = L
+    /\ l' = l + 1
+
 Init == l = 1 /\ pos = NoPos /\ legal = {} /\ bad = {}
-Next == Reset \/ Move
+Next == Reset \/ Move \/ Parsed
 Spec == Init /\ [][Next]_vars
 
 (***************************************************************************)
